@@ -1,7 +1,8 @@
 // C15 conformance harness: executes scripts of out-of-memory injection calls on a real FailableMemoryAllocator
 // (directly, and installed as the current new / new[] / malloc allocator) and on the real C interface
-// (cpputest_malloc_set_out_of_memory_countdown & co, cpputest_malloc/calloc/strdup/strndup), and logs one ndjson
-// line per call with what the caller saw.  It never judges.
+// (cpputest_malloc_set_out_of_memory_countdown & co, cpputest_malloc/calloc/strdup/strndup, and the malloc statistics
+// cpputest_malloc_count_reset / cpputest_malloc_get_count that count the same allocations), and logs one ndjson
+// line per call with what the caller saw and what cpputest_malloc_get_count returns after it.  It never judges.
 //   failalloc <script.tsv> <log.ndjson>      script lines: op<TAB>via<TAB>loc<TAB>n ; `reset` = fresh allocator
 #include "vh.h"
 #include <new>
@@ -55,6 +56,7 @@ int main(int argc, char** argv)
         if (op == "reset") {
             cpputest_malloc_set_out_of_memory();          // make sure the pair below restores `fa`, whatever state we are in
             cpputest_malloc_set_not_out_of_memory();
+            cpputest_malloc_count_reset();
             fa->clearFailedAllocs();
             setCurrentMallocAllocatorToDefault();
             delete fa;
@@ -96,7 +98,9 @@ int main(int argc, char** argv)
         else if (op == "setnotoom") {
             cpputest_malloc_set_not_out_of_memory();
             setCurrentMallocAllocator(fa);                 // the test's malloc allocator stays the failable one
-        } else if (op == "c") {
+        } else if (op == "countreset") cpputest_malloc_count_reset();
+        else if (op == "getcount") (void) cpputest_malloc_get_count();     // the value read is logged below, as on every line
+        else if (op == "c") {
             void* p = NULL;
             static const char text[] = "out of memory is a normal condition";
             if (via == "malloc") p = cpputest_malloc_location(size, alloc_file(loc), line_of(loc));
@@ -114,7 +118,8 @@ int main(int argc, char** argv)
                 setCurrentMallocAllocator(cur);
             }
         } else { fprintf(out, "{\"op\":\"harness-error\",\"what\":\"unknown op\"}\n"); break; }
-        fprintf(out, "{\"op\":%s,\"via\":%s,\"loc\":%ld,\"n\":%ld,\"res\":%s}\n", vh_jstr(op).c_str(), vh_jstr(via).c_str(), loc, n, vh_jstr(res).c_str());
+        fprintf(out, "{\"op\":%s,\"via\":%s,\"loc\":%ld,\"n\":%ld,\"res\":%s,\"count\":%d}\n", vh_jstr(op).c_str(), vh_jstr(via).c_str(), loc, n,
+                vh_jstr(res).c_str(), cpputest_malloc_get_count());
     }
     fflush(out);
     fclose(out);
